@@ -57,9 +57,19 @@ ObsOf(a) == LET V == Visible(a) IN
    readable |-> {d \in Docs : CanRead(a, d)}]
 AllObs == [a \in Requesters |-> ObsOf(a)]
 
-Log(e) == /\ hist' = Append(hist, [e EXCEPT !.obs = AllObs'])
+\* The subscription route: every requester keeps a GraphQL subscription on the collection open. A committed create or
+\* update of document d is reported to requester a - one result showing d with its new value - exactly if a may read d
+\* after the step. A NEW relationship makes the node announce the document again (db.AddDACActorRelationship publishes an
+\* update notification for its heads, so that peers of the new actor fetch it): every requester that may read the live
+\* document after the grant receives it once more. Refused attempts, deletes, repeated grants and revokes are reported
+\* to nobody; nobody ever receives a document it may not read.
+CanReadAfter(a, d) == doc'[d].st # "absent" /\ (doc'[d].owner = 0 \/ (a # Anon /\ (a = doc'[d].owner \/ a \in rel'[d]["reader"] \cup rel'[d]["updater"] \cup rel'[d]["deleter"])))
+Announced(e) == \/ e.op \in {"create", "update"} /\ e.res = "ok"
+                \/ e.op = "grant" /\ e.res = "ok" /\ e.b \notin rel[e.d][e.r] /\ doc'[e.d].st = "live"
+SubOf(e) == [a \in Requesters |-> IF Announced(e) /\ CanReadAfter(a, e.d) THEN <<e.d, doc'[e.d].v>> ELSE <<>>]
+Log(e) == /\ hist' = Append(hist, [e EXCEPT !.obs = AllObs', !.sub = SubOf(e)])
           /\ steps' = steps + 1
-Ev(op, a, d) == [op |-> op, a |-> a, d |-> d, v |-> 0, r |-> "", b |-> 0, res |-> "", obs |-> <<>>]
+Ev(op, a, d) == [op |-> op, a |-> a, d |-> d, v |-> 0, r |-> "", b |-> 0, res |-> "", obs |-> <<>>, sub |-> <<>>]
 \* API routes of a mutation: by document id (request / collection API) or through a filter (UpdateWithFilter /
 \* DeleteWithFilter, filtered mutations); the permission rule is the same on every route
 Routes == {"docid", "filter", "save"}
@@ -106,6 +116,8 @@ AnonSeesOnlyPublic == \A d \in Visible(Anon) : Public(d)
 UpdateImpliesRead == \A a \in Requesters, d \in Docs : CanUpdate(a, d) => CanRead(a, d)
 \* non-interference: what a requester observes depends only on the documents it may read
 NonInterference == \A a \in Requesters : ObsOf(a).ids \subseteq {d \in Docs : CanRead(a, d)}
+\* the subscription route tells a requester nothing about a document it may not read
+SubNonInterference == \A i \in 1..Len(hist) : \A a \in Requesters : hist[i].sub[a] # <<>> => hist[i].d \in hist[i].obs[a].readable
 \* a refused attempt changes nothing (action property)
 RefusedChangesNothing == [][(hist' # hist /\ hist'[Len(hist')].res = "refused") => (doc' = doc /\ rel' = rel)]_vars
 =============================================================================
